@@ -374,7 +374,7 @@ def run(tier, cmd):
                             'structured form, each against the MIDI 1.0 table for all 2^21 valid triples through a finite class partition '
                             '(uniformity inside a class is part of the obligation). Also ShortMessageType <-> u8 over all 256 bytes and the '
                             'per-type super type / main category tables. Invalid status bytes (< 0x80) are outside the property.')
-    Fs = load_configs(chk, ['K1'] + (['K2'] if tier == 'thorough' else []), required=('K1',))
+    Fs = load_configs(chk, ['K1', 'K2'], required=('K1',))
     for cfg, F in sorted(Fs.items()):
         cls = classes(tier)
         chk.extra['classes'] = len(cls)
